@@ -689,7 +689,7 @@ fn fail_record(idx: usize, variant: u64, frames: &[Desc], model: Option<&Model>,
     // the frame the decoder was working on
     let culprit = model
         .map(|m| {
-            let c = m.count(f.at_fed);
+            let c = if f.kind == "frame" { m.count(f.at_fed).saturating_sub(1) } else { m.count(f.at_fed) };
             frames.get(c).map(|d| d.class()).unwrap_or("end-of-stream".into())
         })
         .unwrap_or_else(|| classify(bytes));
